@@ -14,6 +14,13 @@ CHECKS = {
  "C18": dict(engine="E1", technique="exhaustive enumeration of all lengths / length pairs; linear operators decided on the full impulse basis",
              text="Every (nx,nw) in [1,300]^2 (both modes, impulse basis of the shorter argument), every n<=600 (2048) for spectra helpers on every axis of 1-3-D arrays, every n<=1e5 (1e6) for the fast size, every n<=300 for the filters on the impulse basis and every n<=64 for the explicit DFTs are compared with numpy/scipy definitions.",
              note="seeded content for the non-basis argument; 1e-9 relative tolerance for FFT round-off", ref="3/C18"),
+
+ "C10": dict(engine="E1", technique="exhaustive enumeration of all 65536 sync words and of all binary event trains up to a length bound",
+             text="All 65536 words go through split_sync in several shapes and through Reader.read_sync for imec/nidq, bin/cbin recordings; every 0/1 train of length 2..14 (16) goes through fronts/rises/falls in 1-D and 2-D along both axes, every train over {0,1,2} with step thresholds and analog mode, and all trains are written on each of the 16 lines of a recording and recovered end to end.",
+             note="thresholded analog lines compared on windows with a known floor (percentile removal is data dependent by design)", ref="3/C10"),
+ "C16": dict(engine="E1", technique="exhaustive enumeration of (channel count, count over threshold) x boundary placements, and of all flag patterns up to a length bound",
+             text="For every nc in 1..40 and 100/384/400 and every count k=0..nc of channels one ulp below/at/above 98% of range (and just below/above the slew limit) the flags are compared with an exact Fraction comparison; every 0/1 flag pattern of length <=12 (14) x 10 taper widths is realised by four different recordings and the mute gain is checked for range, zeros on flags, ones beyond the half-width and dependence on the flags only.",
+             note="exactly-at-the-slew-limit is not asserted (statement 'exceed' vs code '>='); proportions are simple rationals", ref="3/C16"),
 }
 
 ALL = ["C%02d" % i for i in range(1, 21)]
